@@ -922,3 +922,45 @@ GRAPH_TABLE: dict[str, list[tuple]] = {
                        "1")], [], ""),
     ],
 }
+
+
+# ---- ingestion / graph construction / small loop helpers
+_DS = "EventSolution(meta_data={'EventType': DUMMY_START_EVENT})"
+_UNREACH = ("each(identify_nodes_without_path_back_to_chosen_nodes(set("
+            "P:nodes),P:loop_nodes,P:graph))")
+INGEST_TABLE: dict[str, list[tuple]] = {
+    "update_graph_solution_with_dummy_start_event": [
+        ("every start event of the job follows the dummy start", "call",
+         "add_post_event", _DS,
+         ("each(P:graph_solution.start_events.items())[1]",), [], [], ""),
+        ("the dummy start announces itself to its successors (their "
+         "previous events)", "call", "add_to_post_events", _DS, (), [], [],
+         ""),
+        ("and becomes an event of the job", "call", "add_event",
+         "P:graph_solution", (_DS,), [], [], ""),
+    ],
+    "create_graph_from_events": [
+        ("an edge from every event to every event type that occurs in one "
+         "of its SUCCESSOR sets (tail = the event, head = the successor)",
+         "call", "add_edge", "DiGraph()",
+         ("each(P:events)",
+          "each(({each(P:events).event_type:each(P:events) for..}[each(each("
+          "each(P:events).event_sets).to_frozenset())] for..))"), [], [],
+         ""),
+        ("the graph that was filled is returned", "ret", "", "",
+         ("DiGraph()",), [], [], ""),
+    ],
+    "is_end_of_potential_ends": [
+        ("a potential end event is an end event unless some other potential "
+         "end lies strictly behind it (reachable from it, not reaching it)",
+         "ret", "", "",
+         ("all(((0 LtE (int(has_path(P:graph,each(P:potential_end_nodes),"
+          "P:node)) Sub int(has_path(P:graph,P:node,each("
+          "P:potential_end_nodes))))) for..))",), [], [], ""),
+    ],
+    "remove_nodes_without_path_back_to_loop": [
+        ("every node that none of the given loop nodes reaches leaves the "
+         "graph (once)", "call", "remove_node", "P:graph", (_UNREACH,),
+         [("cmp", _UNREACH, "In", "P:graph.nodes", "1")], [], ""),
+    ],
+}
